@@ -62,17 +62,21 @@ pub enum Start {
     OpenNextSetDiffers,
     /// as `NotYetOpen`, with differing current and next signer sets
     NotYetOpenNextSetDiffers,
+    /// as `Open`, in a world of three uncertified parties whose ids are textually nested
+    /// ("1", "10", "11"): an inexact comparison of party ids attributes a signature, or a place in
+    /// the certificate's signer list, to a party that did not sign
+    OpenNestedIds,
 }
 
 impl Start {
     fn is_open(&self) -> bool {
-        matches!(self, Start::Open | Start::OpenNextSetDiffers)
+        matches!(self, Start::Open | Start::OpenNextSetDiffers | Start::OpenNestedIds)
     }
 }
 
 fn prefix(s: Start) -> Vec<Ev> {
     let mut p = match s {
-        Start::Open | Start::NotYetOpen => vec![Ev::Tick, Ev::RegisterAll],
+        Start::Open | Start::NotYetOpen | Start::OpenNestedIds => vec![Ev::Tick, Ev::RegisterAll],
         _ => vec![Ev::Tick, Ev::Register(0), Ev::Register(1)],
     };
     p.extend([Ev::Epoch(1), Ev::Tick, Ev::Tick]);
@@ -204,7 +208,7 @@ fn replay_inner(scratch: &std::path::Path, start: Start, subs: &[Sub]) -> RunRes
     let rt = tokio::runtime::Builder::new_current_thread().enable_all().build().expect("tokio runtime");
     let replay_json = json!({"start": start, "submissions": subs});
     let res = rt.block_on(async {
-        let mut w = World::new(dir.clone(), 3, false).await;
+        let mut w = if start == Start::OpenNestedIds { World::new_nested_ids(dir.clone()).await } else { World::new(dir.clone(), 3, false).await };
         let mut log = vec![];
         for ev in prefix(start) {
             apply_mut(&mut w, &ev, &mut log).await;
@@ -432,6 +436,33 @@ pub fn run(ctx: &Ctx) -> ! {
             }
         }
     }
+    // textually nested party ids ("1", "10", "11"), uncertified parties: every non-empty subset of
+    // the parties signs under its own name (both routes), and every subset with one submission
+    // under another party's name added at the front or the back
+    let mut nested = 0u64;
+    for route in [Route::Http, Route::Queue] {
+        for mask in 1u32..8 {
+            let own: Vec<Sub> = (0..3).filter(|i| mask & (1 << i) != 0).map(|i| Sub { by: i, label: i, idx: Idx::AsSigned, route }).collect();
+            jobs.push((Start::OpenNestedIds, own.clone()));
+            nested += 1;
+            if route == Route::Http {
+                for by in 0..3 {
+                    for label in 0..3 {
+                        if by != label {
+                            for front in [true, false] {
+                                let mut s = own.clone();
+                                let adv = Sub { by, label, idx: Idx::AsSigned, route };
+                                if front { s.insert(0, adv) } else { s.push(adv) }
+                                jobs.push((Start::OpenNestedIds, s));
+                                nested += 1;
+                            }
+                        }
+                    }
+                }
+            }
+        }
+    }
+    rep.extra("histories_in_the_nested_party_id_world", json!(nested));
     rep.extra("alphabet", json!(alpha.len()));
     rep.extra("alphabet_when_next_signer_set_differs", json!(alpha2.len()));
     rep.extra("max_sequence_length", json!(len));
